@@ -39,3 +39,12 @@ PROPS["C17"] = {
     "suites": [("atom", 600, 20000)],
     "assumptions": ["the accumulator of Atom::subvalence is usize; sums beyond usize::MAX are not modelled"],
 }
+
+PROPS["C07"] = {
+    "deps": ["Proofs/C07.vo", "Proofs/TokenFacts.vo"],
+    "props": "Props/C07.v",
+    "probes": [{"file": "Probes/Token.v"}],
+    "suites": [("kind", 800, 30000)],
+    "assumptions": ["Display of Number is the decimal numeral (std fmt); display strings are ASCII so bytes are code points",
+                    "the sequencing of read_bracket / read_atom over the token tries is a hand transcription (Model/Token.v) tied by the kind correspondence (verif_read_atom hook)"],
+}
